@@ -135,6 +135,7 @@ type View struct {
 	reg     [2]map[string][]byte // complete storage of the two registry accounts
 	iter    [2][]iterRec
 	byID    map[string]*types.Miner
+	pk      map[string][]byte // MinerManager.GetPubkey(id): the by-id public-key lookup consensus uses
 	byAcc   map[string][]byte
 	bal     map[common.Address]*big.Int
 	escrow  map[uint64]map[common.Address]*big.Int
@@ -153,7 +154,7 @@ func takeView(root common.Hash, u *Universe, heights []uint64, maxH uint64) (*Vi
 		return nil, err
 	}
 	mm := service.MinerManagerImpl
-	v := &View{root: root, byID: map[string]*types.Miner{}, byAcc: map[string][]byte{}, bal: map[common.Address]*big.Int{},
+	v := &View{root: root, pk: map[string][]byte{}, byID: map[string]*types.Miner{}, byAcc: map[string][]byte{}, bal: map[common.Address]*big.Int{},
 		escrow: map[uint64]map[common.Address]*big.Int{}, tot: map[uint64]*totals{}}
 	for t := 0; t < 2; t++ {
 		v.reg[t] = map[string][]byte{}
@@ -177,6 +178,9 @@ func takeView(root common.Hash, u *Universe, heights []uint64, maxH uint64) (*Vi
 	}
 	for _, id := range sortedKeys(u.ids) {
 		v.byID[id] = mm.GetMiner(unhx(id), adb)
+		if b, err := mm.GetPubkey(unhx(id)); err == nil {
+			v.pk[id] = b
+		}
 	}
 	for _, a := range sortedKeys(u.accs) {
 		v.byAcc[a] = mm.GetMinerIdByAccount(unhx(a), adb)
@@ -309,6 +313,7 @@ type Rec struct {
 	BoundAt      uint64 // height of the block in which the current account got control (apply / change-account)
 	MaybeRemoved bool   // stake reached 0 by a refund: "removed or aborted" — resolved by observation
 	Genesis      bool
+	PK, VRF      []byte // public keys given by the accepted apply (or read at the start for genesis miners)
 }
 
 func (r *Rec) stake() *big.Int {
@@ -361,7 +366,8 @@ func (f *Ref) seedFrom(v *View) {
 				st = stAbort
 			}
 			f.recs[hx(m.Id)] = &Rec{ID: append([]byte{}, m.Id...), Type: m.Type, Account: append([]byte{}, m.Account...), Applied: m.Stake,
-				Added: new(big.Int), Refunded: new(big.Int), Status: st, ApplyHeight: m.ApplyHeight, Genesis: true}
+				Added: new(big.Int), Refunded: new(big.Int), Status: st, ApplyHeight: m.ApplyHeight, Genesis: true,
+				PK: append([]byte{}, m.PublicKey...), VRF: append([]byte{}, m.VrfPublicKey...)}
 		}
 	}
 }
@@ -382,7 +388,7 @@ func (f *Ref) accept(op *Op, H uint64, keyID, keyAddr []byte) {
 			f.stats["apply_accepted_for_existing_id"]++
 		}
 		f.recs[hx(id)] = &Rec{ID: id, Type: op.Type, Account: acc, Applied: op.Stake, Added: new(big.Int), Refunded: new(big.Int),
-			Status: stNormal, ApplyHeight: H + common.HeightAfterStake, BoundAt: H}
+			Status: stNormal, ApplyHeight: H + common.HeightAfterStake, BoundAt: H, PK: unhx(op.PK), VRF: unhx(op.VRF)}
 	case "add":
 		if op.Stake == 0 {
 			return
